@@ -170,8 +170,10 @@ def rule_no_implicit_tx_calls(ctx):
                 bad = None
                 if isinstance(c.func, ast.Attribute) and c.func.attr in ("begin", "commit", "rollback"):
                     bad = f"`{norm(c)[:60]}`"
-                elif isinstance(c.func, ast.Attribute) and c.func.attr in ("execute", "sql") and c.args and isinstance(c.args[0], ast.Constant) \
-                        and isinstance(c.args[0].value, str) and c.args[0].value.strip().split(" ")[0].upper() in ("BEGIN", "COMMIT", "ROLLBACK", "START", "ABORT", "END"):
+                elif c.args and isinstance(c.args[0], ast.Constant) and isinstance(c.args[0].value, str) and c.args[0].value.strip() \
+                        and c.args[0].value.strip().split(" ")[0].upper() in ("BEGIN", "COMMIT", "ROLLBACK", "START", "ABORT", "END") \
+                        and len(c.args[0].value.split()) <= 3 and not (isinstance(c.func, ast.Attribute) and c.func.attr in ("startswith", "endswith", "split", "get")):
+                    # the SQL word handed to whatever runs it (execute / sql / a private helper)
                     bad = f"`{norm(c)[:60]}`"
                 if bad is None:
                     continue
